@@ -2,6 +2,8 @@
 # Regenerates MANIFEST.json from the table below (kept in one place so it stays valid).
 import json, subprocess
 claimed = {
+ "C07": ("choice-tree DFS over all 319 grammar mnemonics x operand lists (arity 0..3) over 15 operand kinds, undefined symbols in every operand position, file-level shapes; oracle: diagnosed, or bytes that the reference decoder reads back as the written statement", "7/C07"),
+ "C13": ("choice-tree DFS over all byte strings <=2 (256-ary) and 3 (24-ary), token strings <=3/4 over 29 tokens, all single-token/line mutations of 20 programs, the C07 operand space; liveness oracle (no panic, no death, no timeout) + growth envelope on 11 scaling families", "7/C13"),
  "C11": ("choice-tree DFS over base programs x value sets x every subset of literal sites abstracted to EQU x chain depth x body form x placement; differential against the inlined program", "7/C11"),
  "C12": ("deviation-bounded choice-tree DFS (bound 1 quick, 2 thorough) over token-wise re-layouts: whitespace at every gap, comments/blank lines at every boundary, line endings, final newline; differential against the canonical layout", "7/C12"),
  "C14": ("choice-tree DFS over all ordered pairs (and triples over a sub-pool) of label-free statements and all single insertions/deletions; differential concatenation oracle", "7/C14"),
@@ -17,6 +19,8 @@ claimed = {
  "C05": ("choice-tree DFS over DB/DW/DD operand lists, RESB, ALIGNB x residue x ORG, non-emitting statements; directive reference model", "7/C05"),
 }
 texts = {
+ "C07": "Every mnemonic the grammar accepts with every operand list up to arity 1 (thorough: 2, and 3 over six kinds) over 15 operand kinds is embedded between sentinels; a statement accepted without any diagnostic must have emitted bytes, and bytes the reference decoder can read must denote the written mnemonic and operands; directives must refuse operands they cannot represent; an undefined symbol in each of 34 operand positions must be diagnosed; file prefixes x unparsable first lines must not make the rest of the file disappear.",
+ "C13": "Exhaustive enumeration of short byte strings, token strings, single-token and line mutations and the mnemonic x operand space, each executed on the real pipeline in a worker whose death, recovered panic or missing answer is the failure; scaling families are measured at n = 10..10^4 (thorough 10^5) against a 200x-per-decade envelope.",
  "C11": "Every non-empty subset of the literal sites of six base programs (immediates, displacements, data items, RESB/ALIGNB/ORG operands, far-pointer parts, port numbers; values on both sides of encoding boundaries) is replaced by EQU names with chains of depth 1..4, three body forms and two placements; the output must be byte-identical to the inlined program. 4320 variants, exhaustive within those bounds.",
  "C12": "Every layout that differs from the canonical one in at most 1 (thorough: 2) places - alternative whitespace at any of the token gaps, one of ten comment/blank-line variants after any statement, four before the first, CRLF/CR line endings, missing final newline - over 25 base programs covering every statement kind; bytes and error class must equal the canonical layout's. The deviation bound completed is reported.",
  "C14": "out(A;B) = out(A)||out(B) for all ordered pairs of a 108-statement pool in both modes (thorough: plus all triples over a 20-statement sub-pool), and every single insertion/deletion in two 13-statement programs changes the output by exactly that statement's bytes.",
@@ -32,6 +36,8 @@ texts = {
  "C05": "Every operand list up to the stated length over a 27-item boundary alphabet (and rotations up to length 64), every RESB/ALIGNB/residue/ORG combination and every non-emitting statement is assembled by the real pipeline and compared byte for byte with a directive model; the location counter is compared with the emitted length. Exhaustive within the stated bounds.",
 }
 notes = {
+ "C07": "Validity of x86 forms is not modelled in full: accepted statements whose bytes the reference decoder cannot read are counted (accepted_unknown_encoding) and not judged further. Known findings: operand-less opcode table, segment registers as general registers, 32-bit branch targets in 16-bit mode, DB/DW/DD without operands, [undefined] = 0, leading newline + unparsable first line.",
+ "C13": "Byte strings are exhaustive only to length 2/3; timing oracle is an envelope, not a bound. Crashes are re-confirmed through the real CLI before being reported.",
  "C11": "Differential; the inlined program is the reference.",
  "C12": "Differential; the canonical layout is the reference. Known findings: a label that is the first statement of the file cannot be preceded by indentation, a comment line (parse error) or a blank line (whole file silently ignored).",
  "C14": "Differential; single-statement assembly under the same BITS header is the reference.",
